@@ -890,6 +890,72 @@ def nconcat2(src, log):
         log.append("N7 [a, b].concat() -> vx_concat2(a, b)")
 
 
+def nctxdata(src, log):
+    """`let D = R.get_ctxdata(); .. D.f ..` -> `.. R.get_ctxdata().f ..` (the local is an alias of the `&mut ContextData`
+    the accessor returns; inlining the alias lets the reduced Context replace the accessor by its field)"""
+    while True:
+        toks = lex(src)
+        hit = None
+        for i, t in enumerate(toks):
+            if t.text == "let" and t.kind == "ident" and i + 8 < len(toks) and toks[i + 1].kind == "ident" and toks[i + 2].text == "=" \
+                    and toks[i + 3].kind == "ident" and toks[i + 4].text == "." and toks[i + 5].text == "get_ctxdata" \
+                    and toks[i + 6].text == "(" and toks[i + 7].text == ")" and toks[i + 8].text == ";":
+                hit = i
+                break
+        if hit is None:
+            return src
+        i = hit
+        name, recv = toks[i + 1].text, toks[i + 3].text
+        d = toks[i].depth
+        # end of the enclosing block
+        e = i + 9
+        while e < len(toks) and not (toks[e].kind == "close" and toks[e].depth == d - 1):
+            e += 1
+        edits = [(toks[i].start, toks[i + 8].end, "")]
+        for k in range(i + 9, e):
+            if toks[k].kind == "ident" and toks[k].text == name and toks[k + 1].text == "." and toks[k - 1].text != ".":
+                edits.append((toks[k].start, toks[k].end, f"{recv}.get_ctxdata()"))
+        src = _apply(src, edits)
+        log.append(f"N15 `let {name} = {recv}.get_ctxdata();` alias inlined")
+
+
+def nblockpushat(src, log):
+    """`let B = R.get_current_fn().body.get_mut(IDX).unwrap(); B.0.push((Arc::new(Value::None), INST));`
+         -> `R.vx_block_push_at(IDX, INST);`   (an instruction appended to the end of block IDX)"""
+    while True:
+        toks = lex(src)
+        hit = None
+        for i, t in enumerate(toks):
+            if not (t.text == "let" and t.kind == "ident" and toks[i + 1].kind == "ident" and toks[i + 2].text == "="):
+                continue
+            if not (toks[i + 3].kind == "ident" and toks[i + 4].text == "." and toks[i + 5].text == "get_current_fn"
+                    and toks[i + 6].text == "(" and toks[i + 7].text == ")" and toks[i + 8].text == "." and toks[i + 9].text == "body"
+                    and toks[i + 10].text == "." and toks[i + 11].text == "get_mut" and toks[i + 12].text == "("):
+                continue
+            c = toks[i + 12].mate
+            if not (toks[c + 1].text == "." and toks[c + 2].text == "unwrap" and toks[c + 3].text == "(" and toks[c + 4].text == ")"
+                    and toks[c + 5].text == ";"):
+                continue
+            b = toks[i + 1].text
+            k = c + 6
+            if not (toks[k].text == b and toks[k + 1].text == "." and toks[k + 2].text == "0" and toks[k + 3].text == "."
+                    and toks[k + 4].text == "push" and toks[k + 5].text == "(" and toks[k + 6].text == "("):
+                continue
+            pc = toks[k + 5].mate
+            inner = _split_args(src, toks, k + 6)
+            first = "".join(inner[0].split()) if inner else ""
+            if len(inner) != 2 or first not in ("Arc::new(Value::None)", "Arc::new(mir::Value::None)") or toks[pc + 1].text != ";":
+                continue
+            idx = src[toks[i + 12].end:toks[c].start].strip()
+            hit = (i, pc + 1, toks[i + 3].text, idx, inner[1])
+            break
+        if hit is None:
+            return src
+        i, e, recv, idx, inst = hit
+        src = src[:toks[i].start] + f"{recv}.vx_block_push_at({idx}, {inst});" + src[toks[e].end:]
+        log.append("N14 get_current_fn().body.get_mut(I).unwrap() + .0.push((Arc::new(Value::None), INST)) -> vx_block_push_at(I, INST)")
+
+
 def nblockpush(src, log):
     """`R.get_current_basicblock().0.push((Arc::new([mir::]Value::None), INST));` -> `R.vx_block_push(INST);`
     (an instruction without a result register appended to the current basic block; INST is copied verbatim)"""
@@ -952,6 +1018,10 @@ def normalise(src, rules, log, ctx=None):
             src = n9g_match_guard_general(src, log)
         elif r == "n13":
             src = n13_inline_emit_node(src, log, ctx.get("n13_def"))
+        elif r == "nctxdata":
+            src = nctxdata(src, log)
+        elif r == "nblockpushat":
+            src = nblockpushat(src, log)
         elif r == "nblockpush":
             src = nblockpush(src, log)
         elif r == "nconcat2":
